@@ -78,6 +78,8 @@ def run_programs(prop, conf, tier, seed, shard, nshards, budget, col, maxprog=No
         decl = gen.decl()
         contraction = bool(rng.random() < 0.6)
         mode = conf.get("mode", "steer")
+        if conf.get("free_mix") and rng.random() < conf["free_mix"]:
+            mode = "free"  # keep the real sampler in the loop for a share of the programs
         runner = Runner(decl, steer_rng=srng, mode=mode, contraction=contraction,
                         seed=int(rng.integers(0, 2**31)))
         instrument.SAMPLER.all_events.clear()
